@@ -93,21 +93,21 @@ type Disc struct {
 }
 
 type Schema struct {
-	Ref      string    `json:"ref,omitempty"` // name in components.schemas
-	Type     string    `json:"type,omitempty"`
-	Format   string    `json:"format,omitempty"`
-	Nullable bool      `json:"nullable,omitempty"`
-	Desc     string    `json:"desc,omitempty"`
-	Items    *Schema   `json:"items,omitempty"`
-	Props    []Prop    `json:"props,omitempty"`
-	Required []string  `json:"required,omitempty"`
-	AddBool  *bool     `json:"addBool,omitempty"` // additionalProperties: true/false
-	Add      *Schema   `json:"add,omitempty"`     // additionalProperties: schema
-	AllOf    []*Schema `json:"allOf,omitempty"`
-	OneOf    []*Schema `json:"oneOf,omitempty"`
-	AnyOf    []*Schema `json:"anyOf,omitempty"`
-	Disc     *Disc     `json:"disc,omitempty"`
-	Enum     []any     `json:"enum,omitempty"`
+	Ref      string         `json:"ref,omitempty"` // name in components.schemas
+	Type     string         `json:"type,omitempty"`
+	Format   string         `json:"format,omitempty"`
+	Nullable bool           `json:"nullable,omitempty"`
+	Desc     string         `json:"desc,omitempty"`
+	Items    *Schema        `json:"items,omitempty"`
+	Props    []Prop         `json:"props,omitempty"`
+	Required []string       `json:"required,omitempty"`
+	AddBool  *bool          `json:"addBool,omitempty"` // additionalProperties: true/false
+	Add      *Schema        `json:"add,omitempty"`     // additionalProperties: schema
+	AllOf    []*Schema      `json:"allOf,omitempty"`
+	OneOf    []*Schema      `json:"oneOf,omitempty"`
+	AnyOf    []*Schema      `json:"anyOf,omitempty"`
+	Disc     *Disc          `json:"disc,omitempty"`
+	Enum     []any          `json:"enum,omitempty"`
 	Ext      map[string]any `json:"ext,omitempty"`
 }
 
@@ -150,20 +150,20 @@ type Components struct {
 
 // ---- small constructors -------------------------------------------------------------------
 
-func T(typ string) *Schema            { return &Schema{Type: typ} }
-func TF(typ, format string) *Schema   { return &Schema{Type: typ, Format: format} }
-func RefTo(name string) *Schema       { return &Schema{Ref: name} }
-func Arr(items *Schema) *Schema       { return &Schema{Type: "array", Items: items} }
-func Obj(props ...Prop) *Schema       { return &Schema{Type: "object", Props: props} }
-func P(name string, s *Schema) Prop   { return Prop{Name: name, Schema: s} }
+func T(typ string) *Schema          { return &Schema{Type: typ} }
+func TF(typ, format string) *Schema { return &Schema{Type: typ, Format: format} }
+func RefTo(name string) *Schema     { return &Schema{Ref: name} }
+func Arr(items *Schema) *Schema     { return &Schema{Type: "array", Items: items} }
+func Obj(props ...Prop) *Schema     { return &Schema{Type: "object", Props: props} }
+func P(name string, s *Schema) Prop { return Prop{Name: name, Schema: s} }
 func (s *Schema) Req(names ...string) *Schema {
 	c := *s
 	c.Required = append(append([]string{}, s.Required...), names...)
 	return &c
 }
-func (s *Schema) Null() *Schema { c := *s; c.Nullable = true; return &c }
+func (s *Schema) Null() *Schema             { c := *s; c.Nullable = true; return &c }
 func (s *Schema) WithDesc(d string) *Schema { c := *s; c.Desc = d; return &c }
-func Bool(b bool) *bool { return &b }
+func Bool(b bool) *bool                     { return &b }
 
 // Clone deep-copies through JSON (specs are small).
 func (s *Spec) Clone() *Spec {
